@@ -122,6 +122,10 @@ package m
 //@   ensures removes-all-routes-through-router [C07,C11]: len(old(disconnected)) == 0 && touches(rte, old(router)) ==> result
 //@   ensures counts-removals [C11]: removed == old(removed) + (result ? 1 : 0)
 //@   invariant 1 not-yet: forall j int :: 0 <= j && j <= rangeindex && j < len(rte.Path.Hops) ==> rte.Path.Hops[j].Router != router
+// with a peer list - boundary instance: the router sits on the second-to-last hop and the last hop is the first listed peer
+//@   ensures removes-route-whose-last-link-is-disconnected [C11]: (len(old(disconnected)) >= 1 && len(rte.Path.Hops) >= 2 && rte.Path.Hops[len(rte.Path.Hops)-2].Router == old(router) && (forall j int :: 0 <= j && j < len(rte.Path.Hops) - 2 ==> rte.Path.Hops[j].Router != old(router)) && rte.Path.Hops[len(rte.Path.Hops)-1].Router == old(disconnected)[0]) ==> result
+//@   invariant 2 first-occurrence: forall j int :: 0 <= j && j <= rangeindex && j < len(rte.Path.Hops) ==> rte.Path.Hops[j].Router != router
+//@   invariant 4 no-listed-peer-yet: forall k int :: 0 <= k && k <= rangeindex && k < len(disconnected) ==> rte.Path.Hops[i+1].Router != disconnected[k]
 
 // RemoveNextHop's literal: exactly the routes with that next hop.
 //@ func RoutingTable.RemoveNextHop$RemoveNextHop$1
